@@ -402,12 +402,46 @@ func (ff *FuncFacts) FactsAtEdge(from, to *ssa.BasicBlock) factSet {
 	return out
 }
 
-// FlagTrueFacts analyses a boolean flag built from constants (found := false; ...; found = true):
-// it returns, for every way the flag can become true, the must-facts holding at the point where
-// the constant true is assigned. ok=false when some source of the flag is not a boolean constant
-// or a phi of such (then the flag is opaque).
-func (ff *FuncFacts) FlagTrueFacts(v ssa.Value) (sets []factSet, ok bool) {
+// enclosingLoopHeaders returns the headers of the natural loops whose body contains block b.
+func enclosingLoopHeaders(fn *ssa.Function, b *ssa.BasicBlock) map[*ssa.BasicBlock]bool {
+	out := map[*ssa.BasicBlock]bool{}
+	for _, u := range fn.Blocks {
+		for _, h := range u.Succs {
+			if !h.Dominates(u) {
+				continue
+			}
+			// natural loop of back edge u->h: h plus every block that reaches u without passing h
+			body := map[*ssa.BasicBlock]bool{h: true}
+			stack := []*ssa.BasicBlock{u}
+			for len(stack) > 0 {
+				x := stack[len(stack)-1]
+				stack = stack[:len(stack)-1]
+				if body[x] {
+					continue
+				}
+				body[x] = true
+				stack = append(stack, x.Preds...)
+			}
+			if body[b] {
+				out[h] = true
+			}
+		}
+	}
+	return out
+}
+
+// FlagTrueFacts analyses a boolean flag built from constants (found := false; ...; found = true)
+// that is tested in block use: it returns, for every way the flag can become true, the must-facts
+// holding at the point where the constant true is assigned. ok=false when some source of the flag
+// is not a boolean constant or a phi of such (then the flag is opaque), or when the flag is carried
+// around a loop that encloses the use (it may then have been set in an earlier iteration, so the
+// facts under which it was set say nothing about the current iteration's element).
+func (ff *FuncFacts) FlagTrueFacts(v ssa.Value, use *ssa.BasicBlock) (sets []factSet, ok bool) {
 	ok = true
+	var headers map[*ssa.BasicBlock]bool
+	if use != nil {
+		headers = enclosingLoopHeaders(ff.fn, use)
+	}
 	seen := map[ssa.Value]bool{}
 	var rec func(v ssa.Value)
 	rec = func(v ssa.Value) {
@@ -420,6 +454,10 @@ func (ff *FuncFacts) FlagTrueFacts(v ssa.Value) (sets []factSet, ok bool) {
 			if _, isC := constBool(v); !isC {
 				ok = false
 			}
+			return
+		}
+		if headers[phi.Block()] {
+			ok = false // loop-carried across iterations of a loop enclosing the use
 			return
 		}
 		for i, e := range phi.Edges {
